@@ -77,7 +77,7 @@ class Body:
         self.resume = defaultdict(list)
         for bi, blk in enumerate(self.blocks):
             for si, st in enumerate(blk["s"]):
-                if st["k"] == "assign":
+                if st["k"] == "assign" and not blk["c"]:
                     p = st["p"]
                     if len(p) == 1:
                         self.assigns[p[0]].append((bi, si, st))
